@@ -213,6 +213,7 @@ func runC16(c C16Case) (res c16result) {
 	}
 	var pending []pend // ended connections whose teardown may legitimately wait for a stalled peer
 	wantWill := map[int]bool{}
+	var leftover []string // topics on which nobody may be subscribed once every connection is gone
 	awaitTeardown := func(i int, cause string) string {
 		if conns[i].WaitTeardown(wire.DefaultWait) {
 			return ""
@@ -258,7 +259,7 @@ func runC16(c C16Case) (res c16result) {
 			continue
 		}
 		cause := e.Cause
-		if (cause == "disconnect" || cause == "garbage" || cause == "oversize") && c.Clients[i].Publish > 0 {
+		if (cause == "disconnect" || cause == "garbage" || cause == "oversize" || cause == "subscribe-close") && c.Clients[i].Publish > 0 {
 			cause = "close" // its writer may be blocked behind unsent publishes
 		}
 		if cause == "keepalive" && !c.Clients[i].KA1 {
@@ -350,6 +351,21 @@ func runC16(c C16Case) (res c16result) {
 			conns[i].Close()
 			wantWill[i] = c.Clients[i].Will
 			cls["end:oversize-packet"] = true
+		case "subscribe-close":
+			// the client has stopped reading, sends a SUBSCRIBE with many filters and is
+			// gone: the SUBACK cannot be delivered any more
+			conns[i].Stall()
+			sp := &codec.Packet{Type: codec.SUBSCRIBE, PacketID: 77}
+			for j := 0; j < e.Total; j++ {
+				sp.Topics = append(sp.Topics, []byte(fmt.Sprintf("lk/%d/%d", i, j)))
+				sp.QoSs = append(sp.QoSs, byte(j%3))
+			}
+			conns[i].SendAsync(codec.Encode(sp))
+			time.Sleep(time.Duration(e.Frag) * 100 * time.Microsecond)
+			conns[i].Close()
+			wantWill[i] = c.Clients[i].Will
+			leftover = append(leftover, fmt.Sprintf("lk/%d/0", i), fmt.Sprintf("lk/%d/%d", i, e.Total-1), fmt.Sprintf("lk/%d/%d", i, e.Total/2))
+			cls["end:subscribe-in-flight"] = true
 		case "keepalive":
 			// silence; the broker's read deadline (1.2 s) does the rest
 			wantWill[i] = c.Clients[i].Will
@@ -432,6 +448,15 @@ func runC16(c C16Case) (res c16result) {
 		}
 		W.Close()
 		W.WaitTeardown(wire.DefaultWait)
+		// every connection has been torn down: the subscription store hands messages to nobody
+		for i := range c.Clients {
+			leftover = append(leftover, c16topic(i))
+		}
+		for _, tp := range leftover {
+			if n, err := b.SubscribersOf(tp); err == nil && n > 0 {
+				return c16result{Fail: fmt.Sprintf("every connection has ended and been torn down, yet the subscription store still hands messages on %q to %d subscriber(s): a dead connection's subscriptions were left behind", tp, n)}
+			}
+		}
 		returned, p := b.CloseServer(wire.DefaultWait)
 		if p != nil {
 			return c16result{Fail: fmt.Sprintf("Server.Close panicked: %v", p)}
@@ -523,8 +548,12 @@ func genC16(t *rapid.T) C16Case {
 		return p
 	}()).Draw(t, "order")
 	for _, i := range perm {
-		cause := rapid.SampledFrom([]string{"disconnect", "close", "close", "garbage", "keepalive", "close", "oversize"}).Draw(t, "cause")
+		cause := rapid.SampledFrom([]string{"disconnect", "close", "close", "garbage", "keepalive", "close", "oversize", "subscribe-close"}).Draw(t, "cause")
 		end := C16End{C: i, Cause: cause}
+		if cause == "subscribe-close" {
+			end.Total = rapid.SampledFrom([]int{1, 20, 200, 200, 1500}).Draw(t, "nfilters")
+			end.Frag = rapid.SampledFrom([]int{0, 1, 5, 20}).Draw(t, "pause")
+		}
 		if cause == "oversize" {
 			end.Total = rapid.SampledFrom([]int{8000, 8193, 9000, 12000, 16383, 16384, 16385, 20000, 50000}).Draw(t, "total")
 			end.Frag = rapid.SampledFrom([]int{1, 2, 5, 100, 1000, 4000}).Draw(t, "frag")
